@@ -109,6 +109,40 @@ def run_case(case):
             # prefix property, stated directly
             if not all(v in v_all for v in v_g):
                 viol.append({"key": "gate:gated-not-subset-of-all-phases", "detail": {}})
+        elif case["mode"] == "fixreport":
+            # what the real apply_rules prints after --fix [--fix_phase N] must be the gated prefix of a fresh
+            # all-phases check of the file it wrote
+            from vsg import apply_rules, config
+            from props import c14
+
+            d = os.path.join(vsgapi.scratch(), "c13fr_%d" % harness.stable_hash(json.dumps(case, sort_keys=True)))
+            os.makedirs(d, exist_ok=True)
+            try:
+                target = os.path.join(d, "case.vhd")
+                with open(target, "w") as fh:
+                    fh.write(text + "\n")
+                a2 = vsgapi.cla(**dict(vars(a), fix=True, fix_phase=case.get("N", 7), skip_phase=[], filename=[target]))
+                fExit, tc, dj, so, se, stop = apply_rules.apply_rules(a2, oConfig, (0, target))
+                if se and "Error while processing" in se:
+                    return {"status": "rejected"}
+                blocks = c14._parse_vsg(so or "")
+                rows = blocks[0]["rows"] if blocks else []
+                # the rule objects of that very run are not reachable from here; a fresh rule_list under the same
+                # configuration gives every rule's configured phase and severity type
+                f2, r2 = vsgapi.build(lines, a, oConfig, filename=target)
+                ph = {o.unique_id: (o.phase, o.severity.type) for o in r2.rules}
+                printed = [(ph.get(r[0], (None, None))[0], r[0], r[1], ph.get(r[0], (None, None))[1]) for r in rows]
+                err = [p[0] for p in printed if p[3] == "error" and p[0] is not None]
+                gate = min(err) if err else 7
+                beyond = [p for p in printed if p[0] is not None and p[0] > gate]
+                out.update({"gate": gate, "n_report": len(rows), "warning_rows": sum(1 for p in printed if p[3] != "error")})
+                # (whether the rows equal a fresh check of the written file is C08's question, not asked here)
+                if beyond:
+                    viol.append({"key": "report-after-fix:lists-violations-of-phases-beyond-the-gate", "detail": {"gate": gate, "beyond": beyond[:3]}})
+                if bool(fExit) != bool(err):
+                    viol.append({"key": "report-after-fix:exit-flag-disagrees-with-printed-error-rows", "detail": {"flag": bool(fExit), "error_phases": sorted(set(err))}})
+            finally:
+                shutil.rmtree(d, ignore_errors=True)
         else:  # fixphase
             N = case["N"]
             skip = case.get("skip") or []
@@ -217,6 +251,9 @@ def _cases(tier, seed):
         cases.append(c)
     for c in rng.sample(cases, ncli):
         c["cli"] = True
+    nr = 300 if tier == "quick" else 3000
+    for c in harness.sample(rng, base, nr):
+        cases.append(dict(c, mode="fixreport", N=rng.choice([7, 7, 7, 5, 3]), tweak=rng.choice(["warn0", "warn1", "warn0", None, "phase0"])))
     return cases
 
 
@@ -241,7 +278,7 @@ def main(tier):
     cases = _cases(tier, seed)
     results = harness.run_cases("props.c13", cases, cpu=600, wall=2400)
     V = harness.Verdict(PROP)
-    stats = {"gate": 0, "fixphase": 0, "gate_stopped_early": 0, "gate_with_warning_only_phase": 0, "with_skip": 0, "with_phase_tweak": 0, "fixphase_truncating": 0, "cli": 0, "crash(C19)": 0}
+    stats = {"gate": 0, "fixphase": 0, "fixreport": 0, "fixreport_with_warnings_beyond_gate": 0, "gate_stopped_early": 0, "gate_with_warning_only_phase": 0, "with_skip": 0, "with_phase_tweak": 0, "fixphase_truncating": 0, "cli": 0, "crash(C19)": 0}
     nontriv = set()
     for c, r in zip(cases, results):
         st = r.get("status", "ok")
@@ -260,7 +297,12 @@ def main(tier):
         if c.get("tweak"):
             stats["with_phase_tweak"] += 1
         name = "%s|%s|%s|%s|%s" % (fixrun.case_name(c), c["mode"], c.get("tweak"), c.get("skip"), c.get("N"))
-        if r["mode"] == "gate":
+        if r["mode"] == "fixreport":
+            if r.get("warning_rows"):
+                stats["fixreport_with_warnings_beyond_gate"] += 1
+            if r.get("n_report"):
+                nontriv.add(name)
+        elif r["mode"] == "gate":
             if r["n_all"] > r["n_gated"]:
                 stats["gate_stopped_early"] += 1
                 nontriv.add(name)
